@@ -65,7 +65,8 @@ def check(rep):
             cases.append(("*", a, b, ("Multiply", [a, b])))
             cases.append(("/", a, b, ("Divide", a, b)))
             cases.append(("**", a, b, ("Power", a, b)))
-        for k in (1, 2, 3, 7, 1.0, 2.0, 12.0):
+        # (integers no float can hold exactly must arrive unchanged)
+        for k in (1, 2, 3, 7, 1.0, 2.0, 12.0, 2 ** 53 + 1, 10 ** 23, 10 ** 400):
             cases.append(("**", a, k, ("NthPower", a, int(k))))
     bad_exponents = [0, -1, -3, 2.5, 0.5, -2.0, 0.0, math.inf, "2", None, "POINT",
                      2.000000001, 1.9999999999999998, 2.0000000000001, 3 - 1e-12, 1e-15 + 1]
